@@ -129,9 +129,24 @@ def f_uv_clear(s, r):
         import cbor2
         s.flags |= 0x80
         s.ext = cbor2.dumps(r.choice([{"uvm": [[2, 4, 2]]}, {"uvm": [[2, 4, 2], [4, 4, 2]]}, {"uvm": [[0x2, 0xA, 0x4]], "credProtect": 3}, {"credProtect": 3}, {"userVerified": True}, {"uv": True}]))
+ALPHA64 = "ABCDEFGHIJKLMNOPQRSTUVWXYZabcdefghijklmnopqrstuvwxyz0123456789-_"
+def id_spellings(cred_id):
+    """Texts that are NOT the base64url encoding of cred_id (several of them still decode to it under a lenient decoder)."""
+    good = authsim.b64u(cred_id)
+    out = {"padded-1": good + "=", "padded-2": good + "==", "char-appended": good + "A", "truncated": good[:-1], "case-changed": good.lower() if good.lower() != good else good + "x",
+           "of-longer-raw-id": authsim.b64u(cred_id + b"\x00"), "newline-appended": good + "\n", "dot-inserted": good[:2] + "." + good[2:], "space-prefixed": " " + good,
+           "standard-alphabet": good.replace("-", "+").replace("_", "/"), "empty": ""}
+    if len(cred_id) % 3:
+        out["last-char-spare-bits"] = good[:-1] + ALPHA64[ALPHA64.index(good[-1]) ^ 1]
+    return {k: v for k, v in out.items() if v != good}
+def id_fault(which):
+    def f(s, r):
+        sp = id_spellings(s.cred_id)
+        s.id_text = sp.get(which) or sp["padded-1"]
+    return f
 def f_id_mismatch(s, r):
-    good = authsim.b64u(s.cred_id)
-    s.id_text = r.choice([good + "=", good + "A", good[:-1], good.lower() if good.lower() != good else good + "x", authsim.b64u(s.cred_id + b"\x00")])
+    sp = id_spellings(s.cred_id)
+    s.id_text = sp[r.choice(sorted(sp))]
 def f_signer_other(s, r): s.signer_kind = s.kind; s.signer_slot = 1
 def f_stored_key_other(s, r): s.stored_key_kind = s.kind
 def f_sign_ad_only(s, r): s.sign_over = "ad-only"
@@ -173,6 +188,9 @@ FAULTS = {
     "signed-over-raw-cdj": f_sign_cdj_raw, "counter-equal": f_counter_equal, "counter-lower": f_counter_lower,
     "counter-zero-vs-stored": f_counter_zero_vs_stored, "bs-without-be": f_bs_without_be, "scheme-mismatch": f_scheme_mismatch,
     "cdj-edited-after-signing": f_cdj_edited, "authdata-trailing-byte": f_ad_trailing, "signature-truncated": f_sig_trunc,
+    "id-not-b64-rawid:padded-1": id_fault("padded-1"), "id-not-b64-rawid:padded-2": id_fault("padded-2"), "id-not-b64-rawid:last-char-spare-bits": id_fault("last-char-spare-bits"),
+    "id-not-b64-rawid:newline-appended": id_fault("newline-appended"), "id-not-b64-rawid:dot-inserted": id_fault("dot-inserted"), "id-not-b64-rawid:standard-alphabet": id_fault("standard-alphabet"),
+    "id-not-b64-rawid:char-appended": id_fault("char-appended"), "id-not-b64-rawid:truncated": id_fault("truncated"), "id-not-b64-rawid:empty": id_fault("empty"),
     "credential-type": f_cred_type, "challenge-base64url-alias": f_challenge_b64_alias, "origin-alias-spelling": f_origin_alias, "declared-algorithm-of-another-family": f_declared_alg_foreign,
 }
 # faults that can only be expressed in some input forms
